@@ -1310,6 +1310,11 @@ fn wrdata() -> BoxedStrategy<(u16, u16, WRdata)> {
         // unknown type whose RDATA is a name (must pass through untouched)
         2 => (prop_oneof![Just(99u16), Just(65280u16), Just(mr::T_NULL)], class(), wname()).prop_map(|(t, c, n)| (t, c, vec![n])),
         1 => (prop_oneof![Just(99u16), Just(257u16)], class(), prop::collection::vec(any::<u8>(), 0..300)).prop_map(|(t, c, b)| (t, c, vec![WField::Bytes(b)])),
+        // later types whose RDATA has the layout of an RFC 1035 type (AFSDB, RT, KX: like MX; RP: two names; DNAME,
+        // NSAP-PTR: one name): RFC 3597 §4 - their names are never compressed, the RDATA passes through untouched
+        2 => (prop_oneof![Just(18u16), Just(21u16), Just(36u16)], class(), wbytes(2), wname()).prop_map(|(t, c, p, n)| (t, c, vec![p, n])),
+        1 => (class(), wname(), wname()).prop_map(|(c, a, b)| (17u16, c, vec![a, b])),
+        1 => (prop_oneof![Just(39u16), Just(23u16)], class(), wname()).prop_map(|(t, c, n)| (t, c, vec![n])),
         // malformed name-bearing RDATA
         1 => (prop_oneof![Just(mr::T_NS), Just(mr::T_MX), Just(mr::T_SOA), Just(mr::T_SRV)], prop::collection::vec(any::<u8>(), 0..6)).prop_map(|(t, b)| (t, mr::C_IN, vec![WField::Bytes(b)])),
         // name + junk
@@ -1484,6 +1489,9 @@ fn big_case_strategy() -> impl Strategy<Value = Case> {
         })
 }
 
+#[path = "c12n.rs"]
+pub mod counts;
+
 pub fn run(ctx: &Ctx, report: &mut Report) {
     let pointers = ctx.id == "C13";
     report.rule = if pointers {
@@ -1513,11 +1521,16 @@ pub fn run(ctx: &Ctx, report: &mut Report) {
     } else {
         run_prop(ctx, report, PropSpec { name: "writer-ops", cases, max_shrink_iters: 6000 }, case_strategy, oracle_c12);
         run_prop(ctx, report, PropSpec { name: "writer-ops-big", cases: big, max_shrink_iters: 1500 }, big_case_strategy, oracle_c12);
+        // the 16-bit section counts at their limit (RRsets of about 65,535 records in 2 MiB buffers)
+        run_prop(ctx, report, PropSpec { name: "writer-count-limits", cases: ctx.tier.pick(32, 400), max_shrink_iters: 16 }, counts::count_case, counts::oracle_counts);
     }
 }
 
 pub fn replay(check: &str, case: &serde_json::Value) -> Verdict {
     use crate::fw::replay_case;
+    if check == "writer-count-limits" {
+        return replay_case::<counts::CountCase, _>(case, counts::oracle_counts);
+    }
     if check.starts_with("writer-pointers") {
         replay_case::<Case, _>(case, oracle_c13)
     } else {
